@@ -79,6 +79,16 @@ impl Dictionary {
         format!("{} {} {} .", s, p, o)
     }
 
+    /// Translate an identifier issued by `source` into an identifier of `self` for the
+    /// same lexical term (allocating one if the term is new here). Identifiers of two
+    /// independently built dictionaries are unrelated, so they must never be copied across.
+    pub fn reencode_from(&mut self, source: &Dictionary, id: u32) -> Option<u32> {
+        match source.id_to_string.get(&id) {
+            Some(term) => Some(self.encode(term.as_str())),
+            None => None,
+        }
+    }
+
     pub fn merge(&mut self, other: &Dictionary) {
         for (key, value) in other.string_to_id.iter() {
             self.string_to_id.entry(key.clone()).or_insert(*value);
